@@ -15,7 +15,7 @@ Open Scope Z_scope.
 (* ================================================================================= *)
 (* a store: the values of the int locals in scope (signed, in range) and of the bool locals
    (0 / 1), in declaration order *)
-Record store := mkstore { si : list Z; sb : list Z }.
+Record store := mkstore { si : list Z; sb : list Z; sg : list Z }.   (* sg: the int globals *)
 Fixpoint upd (i : nat) (v : Z) (l : list Z) : list Z :=
   match l, i with
   | [], _ => []
@@ -24,13 +24,14 @@ Fixpoint upd (i : nat) (v : Z) (l : list Z) : list Z :=
   end.
 (* leaving a block: the locals declared inside disappear *)
 Definition trunc (s0 s : store) : store :=
-  mkstore (firstn (length (si s0)) (si s)) (firstn (length (sb s0)) (sb s)).
+  mkstore (firstn (length (si s0)) (si s)) (firstn (length (sb s0)) (sb s)) (sg s).
 
 (* how a run of a statement list can end.  Faults are the run-time checks of a checked build. *)
 Inductive fault := FDivZero | FStackOverflow.
 Inductive outcome := ONormal | OBreak | OContinue | OReturn (v : option Z) | OFault (f : fault).
 (* how a call ends *)
-Inductive cres := CRet (v : option Z) | CFault (f : fault).
+(* how a call ends: a result and the int globals as the callee left them, or a fault *)
+Inductive cres := CRet (v : option Z) (G : list Z) | CFault (f : fault).
 (* outcomes that leave the enclosing function *)
 Definition leaves (out : outcome) : Prop := match out with OReturn _ | OFault _ => True | _ => False end.
 Lemma outcome_normal_dec (out : outcome) : {out = ONormal} + {out <> ONormal}.
@@ -48,6 +49,7 @@ Fixpoint ieval (s : store) (o : iopd) : Z :=
   | OArith op x y => swrap (arith_sem op (ieval s x) (ieval s y))
   | OUn UNeg x => swrap (- ieval s x)
   | OUn UPos x => ieval s x
+  | OGlob g => nth g (sg s) 0
   end.
 Fixpoint bevals (s : store) (e : bexpr) : bool :=
   match e with
@@ -68,21 +70,24 @@ Definition wbyte (s : store) (x : wexpr) : Z :=
    locals in scope. *)
 Definition frame_top (s : store) : Z := w * (1 + Z.of_nat (length (si s))) + Z.of_nat (length (sb s)).
 (* what a call leaves in the caller's store *)
+Definition with_g (s : store) (G : list Z) : store := mkstore (si s) (sb s) G.
+Definition set_g (s : store) (g : nat) (v : Z) : store := mkstore (si s) (sb s) (upd g v (sg s)).
 Definition dest_store (dst : dest) (v : option Z) (s s' : store) : Prop :=
   match dst with
+  | DAssignG g => exists x, v = Some x /\ (g < length (sg s))%nat /\ s' = set_g s g x
   | DNone => s' = s
-  | DDecl => exists x, v = Some x /\ s' = mkstore (si s ++ [x]) (sb s)
-  | DAssign i => exists x, v = Some x /\ (i < length (si s))%nat /\ s' = mkstore (upd i x (si s)) (sb s)
+  | DDecl => exists x, v = Some x /\ s' = mkstore (si s ++ [x]) (sb s) (sg s)
+  | DAssign i => exists x, v = Some x /\ (i < length (si s))%nat /\ s' = mkstore (upd i x (si s)) (sb s) (sg s)
   end.
 
 (* exec d s σ out_bytes outcome σ' *)
 Inductive exec : Z -> stmt -> store -> list Z -> outcome -> store -> Prop :=
-| X_decli d o s : exec d (SDeclI o) s [] ONormal (mkstore (si s ++ [ieval s o]) (sb s))
+| X_decli d o s : exec d (SDeclI o) s [] ONormal (mkstore (si s ++ [ieval s o]) (sb s) (sg s))
 | X_assi d i o s : (i < length (si s))%nat ->
-    exec d (SAssignI i o) s [] ONormal (mkstore (upd i (ieval s o) (si s)) (sb s))
-| X_declb d e s : exec d (SDeclB e) s [] ONormal (mkstore (si s) (sb s ++ [b2z (bevals s e)]))
+    exec d (SAssignI i o) s [] ONormal (mkstore (upd i (ieval s o) (si s)) (sb s) (sg s))
+| X_declb d e s : exec d (SDeclB e) s [] ONormal (mkstore (si s) (sb s ++ [b2z (bevals s e)]) (sg s))
 | X_assb d j e s : (j < length (sb s))%nat ->
-    exec d (SAssignB j e) s [] ONormal (mkstore (si s) (upd j (b2z (bevals s e)) (sb s)))
+    exec d (SAssignB j e) s [] ONormal (mkstore (si s) (upd j (b2z (bevals s e)) (sb s)) (sg s))
 | X_write d x s : exec d (SWrite x) s [wbyte s x] ONormal s
 | X_writeln d s : exec d SWriteln s [10] ONormal s
 | X_writei d ln o s :                                 (* the decimal representation of the value *)
@@ -110,18 +115,23 @@ Inductive exec : Z -> stmt -> store -> list Z -> outcome -> store -> Prop :=
 | X_continue d s : exec d SContinue s [] OContinue s
 (* division in a checked build: a zero divisor is the fault division_by_zero *)
 | X_decldiv d op a b s : ieval s b <> 0 ->
-    exec d (SDeclDiv op a b) s [] ONormal (mkstore (si s ++ [swrap (arith_sem op (ieval s a) (ieval s b))]) (sb s))
+    exec d (SDeclDiv op a b) s [] ONormal (mkstore (si s ++ [swrap (arith_sem op (ieval s a) (ieval s b))]) (sb s) (sg s))
 | X_decldiv_fault d op a b s : ieval s b = 0 -> exec d (SDeclDiv op a b) s [] (OFault FDivZero) s
 | X_assdiv d i op a b s : (i < length (si s))%nat -> ieval s b <> 0 ->
-    exec d (SAssignDiv i op a b) s [] ONormal (mkstore (upd i (swrap (arith_sem op (ieval s a) (ieval s b))) (si s)) (sb s))
+    exec d (SAssignDiv i op a b) s [] ONormal (mkstore (upd i (swrap (arith_sem op (ieval s a) (ieval s b))) (si s)) (sb s) (sg s))
 | X_assdiv_fault d i op a b s : ieval s b = 0 -> exec d (SAssignDiv i op a b) s [] (OFault FDivZero) s
 (* calls: the arguments are evaluated left to right in the caller's store *)
-| X_call d dst f args s evs v s' :
-    callf (d - frame_top s) f (map (ieval s) args) evs (CRet v) -> dest_store dst v s s' ->
+| X_call d dst f args s evs v G' s' :                  (* the callee sees and may change the globals *)
+    callf (d - frame_top s) f (map (ieval s) args) (sg s) evs (CRet v G') -> dest_store dst v (with_g s G') s' ->
     exec d (SCall dst f args) s evs ONormal s'
 | X_call_fault d dst f args s evs ft :
-    callf (d - frame_top s) f (map (ieval s) args) evs (CFault ft) ->
+    callf (d - frame_top s) f (map (ieval s) args) (sg s) evs (CFault ft) ->
     exec d (SCall dst f args) s evs (OFault ft) s
+(* assignment to an int global *)
+| X_assg d g o s : (g < length (sg s))%nat -> exec d (SAssignG g o) s [] ONormal (set_g s g (ieval s o))
+| X_assgdiv d g op a b s : (g < length (sg s))%nat -> ieval s b <> 0 ->
+    exec d (SAssignGDiv g op a b) s [] ONormal (set_g s g (swrap (arith_sem op (ieval s a) (ieval s b))))
+| X_assgdiv_fault d g op a b s : ieval s b = 0 -> exec d (SAssignGDiv g op a b) s [] (OFault FDivZero) s
 | X_return d s : exec d (SReturn None) s [] (OReturn None) s
 | X_return_val d o s : exec d (SReturn (Some o)) s [] (OReturn (Some (ieval s o))) s
 with execs : Z -> stmts -> store -> list Z -> outcome -> store -> Prop :=
@@ -131,13 +141,13 @@ with execs : Z -> stmts -> store -> list Z -> outcome -> store -> Prop :=
 | XS_exit d s r s0 e1 out s1 :
     exec d s s0 e1 out s1 -> out <> ONormal -> execs d (SCons s r) s0 e1 out s1
 (* callf d f args events result: function f called with d bytes below its frame pointer *)
-with callf : Z -> nat -> list Z -> list Z -> cres -> Prop :=
-| CF_overflow d f vs fd : nth_error funs f = Some fd -> d < fun_need w fd ->
-    callf d f vs [] (CFault FStackOverflow)
-| CF_return d f vs fd evs v s1 : nth_error funs f = Some fd -> fun_need w fd <= d ->
-    execs d (fn_body fd) (mkstore vs []) evs (OReturn v) s1 -> callf d f vs evs (CRet v)
-| CF_fault d f vs fd evs ft s1 : nth_error funs f = Some fd -> fun_need w fd <= d ->
-    execs d (fn_body fd) (mkstore vs []) evs (OFault ft) s1 -> callf d f vs evs (CFault ft).
+with callf : Z -> nat -> list Z -> list Z -> list Z -> cres -> Prop :=
+| CF_overflow d f vs G fd : nth_error funs f = Some fd -> d < fun_need w fd ->
+    callf d f vs G [] (CFault FStackOverflow)
+| CF_return d f vs G fd evs v s1 : nth_error funs f = Some fd -> fun_need w fd <= d ->
+    execs d (fn_body fd) (mkstore vs [] G) evs (OReturn v) s1 -> callf d f vs G evs (CRet v (sg s1))
+| CF_fault d f vs G fd evs ft s1 : nth_error funs f = Some fd -> fun_need w fd <= d ->
+    execs d (fn_body fd) (mkstore vs [] G) evs (OFault ft) s1 -> callf d f vs G evs (CFault ft).
 End Source.
 Scheme exec_ind2 := Minimality for exec Sort Prop
   with execs_ind2 := Minimality for execs Sort Prop
@@ -153,10 +163,10 @@ Fixpoint istmt (fuel : nat) (d : Z) (s : stmt) (s0 : store) : option (list Z * o
   | O => None
   | S f =>
     match s with
-    | SDeclI o => Some ([], ONormal, mkstore (si s0 ++ [ieval w s0 o]) (sb s0))
-    | SAssignI i o => if (i <? length (si s0))%nat then Some ([], ONormal, mkstore (upd i (ieval w s0 o) (si s0)) (sb s0)) else None
-    | SDeclB e => Some ([], ONormal, mkstore (si s0) (sb s0 ++ [b2z (bevals w s0 e)]))
-    | SAssignB j e => if (j <? length (sb s0))%nat then Some ([], ONormal, mkstore (si s0) (upd j (b2z (bevals w s0 e)) (sb s0))) else None
+    | SDeclI o => Some ([], ONormal, mkstore (si s0 ++ [ieval w s0 o]) (sb s0) (sg s0))
+    | SAssignI i o => if (i <? length (si s0))%nat then Some ([], ONormal, mkstore (upd i (ieval w s0 o) (si s0)) (sb s0) (sg s0)) else None
+    | SDeclB e => Some ([], ONormal, mkstore (si s0) (sb s0 ++ [b2z (bevals w s0 e)]) (sg s0))
+    | SAssignB j e => if (j <? length (sb s0))%nat then Some ([], ONormal, mkstore (si s0) (upd j (b2z (bevals w s0 e)) (sb s0)) (sg s0)) else None
     | SWrite x => Some ([wbyte w s0 x], ONormal, s0)
     | SWriteln => Some ([10], ONormal, s0)
     | SWriteI ln o => Some (decimal (ieval w s0 o) ++ (if ln then [10] else []), ONormal, s0)
@@ -194,24 +204,31 @@ Fixpoint istmt (fuel : nat) (d : Z) (s : stmt) (s0 : store) : option (list Z * o
     | SContinue => Some ([], OContinue, s0)
     | SDeclDiv op a b =>
         if ieval w s0 b =? 0 then Some ([], OFault FDivZero, s0)
-        else Some ([], ONormal, mkstore (si s0 ++ [swrap w (arith_sem op (ieval w s0 a) (ieval w s0 b))]) (sb s0))
+        else Some ([], ONormal, mkstore (si s0 ++ [swrap w (arith_sem op (ieval w s0 a) (ieval w s0 b))]) (sb s0) (sg s0))
     | SAssignDiv i op a b =>
         if ieval w s0 b =? 0 then Some ([], OFault FDivZero, s0)
         else if (i <? length (si s0))%nat
-             then Some ([], ONormal, mkstore (upd i (swrap w (arith_sem op (ieval w s0 a) (ieval w s0 b))) (si s0)) (sb s0))
+             then Some ([], ONormal, mkstore (upd i (swrap w (arith_sem op (ieval w s0 a) (ieval w s0 b))) (si s0)) (sb s0) (sg s0))
              else None
     | SCall dst g args =>
-        match icall f (d - frame_top w s0) g (map (ieval w s0) args) with
-        | Some (e, CRet v) =>
+        match icall f (d - frame_top w s0) g (map (ieval w s0) args) (sg s0) with
+        | Some (e, CRet v G') =>
             match dst, v with
-            | DNone, _ => Some (e, ONormal, s0)
-            | DDecl, Some x => Some (e, ONormal, mkstore (si s0 ++ [x]) (sb s0))
-            | DAssign i, Some x => if (i <? length (si s0))%nat then Some (e, ONormal, mkstore (upd i x (si s0)) (sb s0)) else None
+            | DNone, _ => Some (e, ONormal, with_g s0 G')
+            | DDecl, Some x => Some (e, ONormal, mkstore (si s0 ++ [x]) (sb s0) G')
+            | DAssign i, Some x => if (i <? length (si s0))%nat then Some (e, ONormal, mkstore (upd i x (si s0)) (sb s0) G') else None
+            | DAssignG k, Some x => if (k <? length G')%nat then Some (e, ONormal, set_g (with_g s0 G') k x) else None
             | _, None => None
             end
         | Some (e, CFault ft) => Some (e, OFault ft, s0)
         | None => None
         end
+    | SAssignG k o => if (k <? length (sg s0))%nat then Some ([], ONormal, set_g s0 k (ieval w s0 o)) else None
+    | SAssignGDiv k op a b =>
+        if ieval w s0 b =? 0 then Some ([], OFault FDivZero, s0)
+        else if (k <? length (sg s0))%nat
+             then Some ([], ONormal, set_g s0 k (swrap w (arith_sem op (ieval w s0 a) (ieval w s0 b))))
+             else None
     | SReturn None => Some ([], OReturn None, s0)
     | SReturn (Some o) => Some ([], OReturn (Some (ieval w s0 o)), s0)
     end
@@ -234,7 +251,7 @@ with istmts (fuel : nat) (d : Z) (ss : stmts) (s0 : store) : option (list Z * ou
         end
     end
   end
-with icall (fuel : nat) (d : Z) (g : nat) (vs : list Z) : option (list Z * cres) :=
+with icall (fuel : nat) (d : Z) (g : nat) (vs G : list Z) : option (list Z * cres) :=
   match fuel with
   | O => None
   | S f =>
@@ -242,8 +259,8 @@ with icall (fuel : nat) (d : Z) (g : nat) (vs : list Z) : option (list Z * cres)
     | None => None
     | Some fd =>
         if d <? fun_need w fd then Some ([], CFault FStackOverflow)
-        else match istmts f d (fn_body fd) (mkstore vs []) with
-             | Some (e, OReturn v, _) => Some (e, CRet v)
+        else match istmts f d (fn_body fd) (mkstore vs [] G) with
+             | Some (e, OReturn v, s1) => Some (e, CRet v (sg s1))
              | Some (e, OFault ft, _) => Some (e, CFault ft)
              | _ => None
              end
@@ -253,11 +270,11 @@ with icall (fuel : nat) (d : Z) (g : nat) (vs : list Z) : option (list Z * cres)
 Theorem interp_sound fuel :
   (forall d s s0 e out s1, istmt fuel d s s0 = Some (e, out, s1) -> exec w funs d s s0 e out s1) /\
   (forall d ss s0 e out s1, istmts fuel d ss s0 = Some (e, out, s1) -> execs w funs d ss s0 e out s1) /\
-  (forall d g vs e res, icall fuel d g vs = Some (e, res) -> callf w funs d g vs e res).
+  (forall d g vs G e res, icall fuel d g vs G = Some (e, res) -> callf w funs d g vs G e res).
 Proof.
   induction fuel as [|f [IHs [IHss IHc]]]; [split; [|split]; intros; discriminate|]. split; [|split].
   - intros d s s0 e out s1 H.
-    destruct s as [o|i o|b|j b|x| |ln o|ln b|c t1 t2|c b k|ss| | |op a b|i op a b|dst g args|r]; cbn [istmt] in H.
+    destruct s as [o|i o|b|j b|x| |ln o|ln b|c t1 t2|c b k|ss| | |op a b|i op a b|dst g args|r|k o|k op a b]; cbn [istmt] in H.
     + inversion H; subst. constructor.
     + destruct (Nat.ltb_spec i (length (si s0))); [|discriminate]. inversion H; subst. constructor. assumption.
     + inversion H; subst. constructor.
@@ -298,14 +315,19 @@ Proof.
     + destruct (Z.eqb_spec (ieval w s0 b) 0) as [Z0|Nz]; inversion H; subst; constructor; assumption.
     + destruct (Z.eqb_spec (ieval w s0 b) 0) as [Z0|Nz]; [inversion H; subst; constructor; assumption|].
       destruct (Nat.ltb_spec i (length (si s0))); [|discriminate]. inversion H; subst. constructor; assumption.
-    + destruct (icall f (d - frame_top w s0) g (map (ieval w s0) args)) as [[e' [v|ft]]|] eqn:Ei; [| |discriminate].
-      * apply IHc in Ei. destruct dst as [| |i].
+    + destruct (icall f (d - frame_top w s0) g (map (ieval w s0) args) (sg s0)) as [[e' [v G'|ft]]|] eqn:Ei; [| |discriminate].
+      * apply IHc in Ei. destruct dst as [| |i|k].
         -- inversion H; subst. eapply X_call; [exact Ei | reflexivity].
         -- destruct v as [x|]; [|discriminate]. inversion H; subst. eapply X_call; [exact Ei | exists x; split; reflexivity].
         -- destruct v as [x|]; [|discriminate]. destruct (Nat.ltb_spec i (length (si s0))); [|discriminate]. inversion H; subst.
            eapply X_call; [exact Ei | exists x; split; [reflexivity | split; [assumption | reflexivity]]].
+        -- destruct v as [x|]; [|discriminate]. destruct (Nat.ltb_spec k (length G')); [|discriminate]. inversion H; subst.
+           eapply X_call; [exact Ei | exists x; split; [reflexivity | split; [assumption | reflexivity]]].
       * apply IHc in Ei. inversion H; subst. eapply X_call_fault. exact Ei.
     + destruct r as [o|]; inversion H; subst; constructor.
+    + destruct (Nat.ltb_spec k (length (sg s0))); [|discriminate]. inversion H; subst. constructor. assumption.
+    + destruct (Z.eqb_spec (ieval w s0 b) 0) as [Z0|Nz]; [inversion H; subst; constructor; assumption|].
+      destruct (Nat.ltb_spec k (length (sg s0))); [|discriminate]. inversion H; subst. constructor; assumption.
   - intros d ss s0 e out s1 H. destruct ss as [|s r]; cbn [istmts] in H; [inversion H; subst; constructor|].
     destruct (istmt f d s s0) as [[[e1 out1] s1']|] eqn:E1; [|discriminate].
     destruct (outcome_normal_dec out1) as [-> | N1].
@@ -313,10 +335,10 @@ Proof.
       eapply XS_cons; [apply IHs; exact E1 | apply IHss; exact E2].
     + assert (H' : Some (e1, out1, s1') = Some (e, out, s1)) by (destruct out1; try exact H; contradiction).
       inversion H'; subst. apply XS_exit; [apply IHs; exact E1 | exact N1].
-  - intros d g vs e res H. cbn [icall] in H. destruct (nth_error funs g) as [fd|] eqn:Eg; [|discriminate].
+  - intros d g vs G e res H. cbn [icall] in H. destruct (nth_error funs g) as [fd|] eqn:Eg; [|discriminate].
     destruct (Z.ltb_spec d (fun_need w fd)) as [Lt|Ge].
     + inversion H; subst. eapply CF_overflow; eassumption.
-    + destruct (istmts f d (fn_body fd) (mkstore vs [])) as [[[e' out'] s']|] eqn:Eb; [|discriminate].
+    + destruct (istmts f d (fn_body fd) (mkstore vs [] G)) as [[[e' out'] s']|] eqn:Eb; [|discriminate].
       destruct out'; try discriminate; inversion H; subst; [eapply CF_return | eapply CF_fault]; try eassumption; apply IHss; exact Eb.
 Qed.
 End Interp.
@@ -326,6 +348,7 @@ End Interp.
 (* ================================================================================= *)
 Section CheckDefs.
 Variable w : Z.
+Variable ng : nat.                 (* the number of int globals *)
 Variable cfb : nat -> nat -> bool.
 Fixpoint oscoped_b (ni : nat) (o : iopd) : bool :=
   match o with
@@ -333,6 +356,7 @@ Fixpoint oscoped_b (ni : nat) (o : iopd) : bool :=
   | OVar i => (i <? ni)%nat
   | OArith op x y => match op with SAdd | SSub | SMul => true | _ => false end && oscoped_b ni x && oscoped_b ni y
   | OUn _ x => oscoped_b ni x
+  | OGlob g => (g <? ng)%nat
   end.
 Fixpoint bscoped_b (ni nb : nat) (e : bexpr) : bool :=
   match e with
@@ -349,7 +373,7 @@ Fixpoint sscoped_b (ni nb : nat) (inloop : bool) (s : stmt) : bool :=
   | SAssignI i o => (i <? ni)%nat && oscoped_b ni o
   | SDeclB e => bscoped_b ni nb e
   | SAssignB j e => (j <? nb)%nat && bscoped_b ni nb e
-  | SWrite (WrByte o) => oscoped_b ni o
+  | SWrite (WrByte o) => oscoped_b ni o && negb (is_glob o)
   | SWrite _ | SWriteln => true
   | SWriteI _ o => oscoped_b ni o
   | SWriteB _ e => bscoped_b ni nb e
@@ -360,9 +384,12 @@ Fixpoint sscoped_b (ni nb : nat) (inloop : bool) (s : stmt) : bool :=
   | SDeclDiv op a b => divop_b op && oscoped_b ni a && oscoped_b ni b
   | SAssignDiv i op a b => (i <? ni)%nat && divop_b op && oscoped_b ni a && oscoped_b ni b
   | SCall dst f args =>
-      match dst with DAssign i => (i <? ni)%nat | _ => true end && cfb f (length args) && forallb (oscoped_b ni) args
+      match dst with DAssign i => (i <? ni)%nat | DAssignG g => (g <? ng)%nat | _ => true end && cfb f (length args) && forallb (oscoped_b ni) args
   | SReturn (Some o) => oscoped_b ni o
   | SReturn None => true
+  (* proved for right-hand sides that are a literal, a variable, or one binary operation *)
+  | SAssignG g o => (g <? ng)%nat && oscoped_b ni o && match o with OUn _ _ => false | _ => true end
+  | SAssignGDiv _ _ _ _ => false     (* modelled and tied, not covered by the theorems *)
   end
 with ssscoped_b (ni nb : nat) (inloop : bool) (ss : stmts) : bool :=
   match ss with
@@ -379,20 +406,20 @@ with ssscoped_b (ni nb : nat) (inloop : bool) (ss : stmts) : bool :=
 End CheckDefs.
 Definition cf_b (funs : list fundef) (ord : list nat) (f n : nat) : bool :=
   existsb (Nat.eqb f) ord && match nth_error funs f with Some fd => Nat.eqb (fn_params fd) n | None => false end.
-Definition fun_ok_b (w : Z) (funs : list fundef) (ord : list nat) (f : nat) : bool :=
+Definition fun_ok_b (w : Z) (ng : nat) (funs : list fundef) (ord : list nat) (f : nat) : bool :=
   match nth_error funs f with
   | Some fd => (0 <=? fun_need w fd) && (fun_need w fd <? Machine.W w / 2) &&
-               ssscoped_b w (cf_b funs ord) (fn_params fd) 0 false (fn_body fd)
+               ssscoped_b w ng (cf_b funs ord) (fn_params fd) 0 false (fn_body fd)
   | None => false
   end.
-Definition prog_ok_b (w : Z) (funs : list fundef) (nargs : nat) : bool :=
+Definition prog_ok_b (w : Z) (ng : nat) (funs : list fundef) (nargs : nat) : bool :=
   let ord := program_order funs in
   match ord with 0%nat :: _ => true | _ => false end &&
-  forallb (fun_ok_b w funs ord) ord && cf_b funs ord 0 nargs.
+  forallb (fun_ok_b w ng funs ord) ord && cf_b funs ord 0 nargs.
 
 (* all hypotheses of the program theorem that concern the program, the stack size and the number
    of arguments, as one boolean (used by the correspondence to select the runs the theorem covers) *)
-Definition run_ok_b (w : Z) (funs : list fundef) (stack : Z) (nargs : nat) : bool :=
-  prog_ok_b w funs nargs && (0 <=? stack) &&
+Definition run_ok_b (w : Z) (ng : nat) (funs : list fundef) (stack : Z) (nargs : nat) : bool :=
+  prog_ok_b w ng funs nargs && (0 <=? stack) &&
   (size (lower_program w funs) + GenStdlib.stdlib_len <=? Machine.W w) &&
   ((stack + Z.of_nat nargs + 6) * w <? Machine.W w / 2).
